@@ -24,7 +24,7 @@ TITLE = "Cached overlaps are coherent with the walkers whenever a step reads the
 
 MENU = {"quick": 48, "thorough": 192}
 TIERS = {
-    "quick": dict(runs=48 * 12, budget_s=170, recheck=2, shrink_s=60.0, run_timeout_s=900),
+    "quick": dict(runs=48 * 12, budget_s=300, recheck=2, shrink_s=60.0, run_timeout_s=900),
     "thorough": dict(runs=192 * 150, budget_s=1200, recheck=6, shrink_s=180.0, run_timeout_s=1800),
 }
 INCOH_TOL = 1.0e-8
